@@ -99,3 +99,22 @@ contract(T, 'MtscompEphysReader.iter_chunks', props=['C16'],
                              ('last_chunk', 'implies(batch > 0, last_chunk == min(bs * batch, nch) - 1)')],
                'lemmas': [('mul-monotone', 'implies(bs >= 1 and batch <= nb - 1, bs * batch <= bs * (nb - 1))')]}},
     at_exit=[('tiles-whole-recording', 'cov == cb[len(cb) - 1]')])
+
+contract(T, '_get_chunk_bounds', props=['C16'],
+    params={'arr_sizes': 'list[int]', 'chunk_size': 'int'},
+    requires=[('cs>0', 'chunk_size > 0'), ('at-least-one-file', 'len(arr_sizes) >= 1'),
+              ('sizes-nonnegative', 'all(arr_sizes[k] >= 0 for k in range(len(arr_sizes)))')],
+    result='list[int]',
+    locals={'b': 'list[int]'},
+    loops={0: {'idx': 'k', 'invariant': [
+        ('n-is-prefix-sum', 'n == psum(arr_sizes, k) and n >= 0 and 0 <= k and k <= len(arr_sizes)'),
+        ('b-from-0-to-n', '(k == 0 and len(b) == 0) or (len(b) >= 1 and b[0] == 0 and b[len(b) - 1] == n)'),
+        ('b-increasing', 'increasing(b)'),
+        ('b-gaps', 'all(b[j + 1] - b[j] <= chunk_size for j in range(len(b) - 1))'),
+        ('b-contains-boundaries', 'all(implies(k >= 1, any(b[j] == psum(arr_sizes, m) for j in range(len(b)))) for m in range(k + 1))'),
+    ]}},
+    ensures=[('starts-at-0', 'result[0] == 0'),
+             ('ends-at-sample-count', 'result[len(result) - 1] == psum(arr_sizes, len(arr_sizes))'),
+             ('strictly-increasing', 'increasing(result)'),
+             ('never-further-apart-than-chunk-length', 'all(result[j + 1] - result[j] <= chunk_size for j in range(len(result) - 1))'),
+             ('contains-every-file-boundary', 'all(any(result[j] == psum(arr_sizes, m) for j in range(len(result))) for m in range(len(arr_sizes) + 1))')])
